@@ -667,9 +667,13 @@ def gen_interrupt(rng):
         # a machine (with its own sink) created between two simulate() calls, fed by an existing device
         feeders = [d['n'] for d in devs if d['k'] in ('S', 'B', 'P', 'H')]
         spec.setdefault('between', []).append([0, 'newline', [rng.choice(feeders)], rng.choice([0.5, 1, 2])])
-    if len(spec['T']) > 1 and rng.random() < 0.4:
+    if len(spec['T']) > 1 and rng.random() < 0.6:
         # a source (with its own sink) created between two simulate() calls: its first cycle starts then
         spec.setdefault('between', []).append([0, 'newsource', rng.choice([1, 2.5, 4, 8]), rng.choice([3, 8])])
+    elif rng.random() < 0.3:
+        # ... or from inside an event
+        spec['actions'].append([rng.choice([0.5, 1, 2, 3, 4.5]), rng.choice(PRIOS), 'newsource', rng.choice([1, 2.5, 4, 8]),
+                                rng.choice([3, 8])])
     if rng.random() < 0.3:
         # a source that starts with no downstream at all; a machine with its own sink is attached to it later (from an
         # event, or between two runs)
